@@ -220,6 +220,19 @@ package store
 //@ pred wfSections(m) := m != nil && (forall i string :: mapHas(m, i) ==> mapGet(m, i) != nil) && (forall i, j string :: mapHas(m, i) && mapHas(m, j) && i != j ==> mapGet(m, i) != mapGet(m, j))
 //@ pred wfConfig(c) := wfSections(c.local) && wfSections(c.global) && c.local != c.global && (forall i, j string :: mapHas(c.local, i) && mapHas(c.global, j) ==> mapGet(c.local, i) != mapGet(c.global, j))
 
+// identRegexp is `^\[.*\]$`: a match has both brackets (assumed; validated in /verif/replay/store.go.txt)
+//@ regexp identRegexp: match(s) ==> len(s) >= 2
+
+// the loader writes a key only into a section it has opened: no assignment to an entry of a nil map (C19)
+//@ func Config.load
+//@   returns err
+//@   modifies maps, $rdpos, $screst, $sctok
+//@   requires wfConfig(c)
+//@   ensures [wf] {C20,C19} wfConfig(c)
+//@   loop 0:
+//@     invariant wfConfig(c)
+//@     invariant [section-open] {C19} ident != "" ==> ite(isGlobal, mapHas(c.global, ident) && mapGet(c.global, ident) != nil, mapHas(c.local, ident) && mapGet(c.local, ident) != nil)
+
 //@ func Config.GetUserName
 //@   returns name
 //@   pure
@@ -371,7 +384,8 @@ package store
 //@   ensures [others] forall x *Reflog :: x != r ==> x.records == old(x.records)
 //@   loop 0:
 //@     invariant wfReflog(r)
-//@     invariant logConn(fs, rootGoitPath) && old(recordsConn(fs, rootGoitPath, r)) ==> recordsConn(fs, rootGoitPath, r) && logTextOK(fs, rootGoitPath, scRest(scanner))
+//@     invariant [rest-ok] {C03} logConn(fs, rootGoitPath) ==> logTextOK(fs, rootGoitPath, scRest(scanner))
+//@     invariant [records-connected] {C03} logConn(fs, rootGoitPath) && old(recordsConn(fs, rootGoitPath, r)) ==> recordsConn(fs, rootGoitPath, r)
 //@     invariant forall x *Reflog :: x != r ==> x.records == old(x.records)
 
 //@ func NewEntry
